@@ -367,6 +367,9 @@ func endToEnd(meta *common.Meta, tier string, rng interface{ Intn(int) int }, ou
 		{"gen_test.go", "// Code generated by tool. DO NOT EDIT.\n\n" + warnSrc("p", "GenTest")},
 		{"clean.go", "package p\n\nfunc Clean() int { return 1 }\n"},
 		{"sub/b.go", warnSrc("sub", "B")},
+		// the last package (by import path) and its last file are clean: the exit status must not depend on
+		// which file happens to be checked last
+		{"zz/zclean.go", "package zz\n\nfunc Clean() int { return 1 }\n"},
 	}
 	type layout struct {
 		name   string
